@@ -35,6 +35,8 @@ def run(ctx, rep):
     seen, n_sites, _ = CR.run_census(fx, rep, "C06.1", roots, dict(a_size=False))
     rep.floor("C06.1", n_sites, 6, "census sites on the parser paths (bytes[0], 3x split_at, bytes[pos..], pos+1, ...)")
     n_loops = R12.check_loops(fx, rep, "C06.1.loops", seen)
+    import api_rules as AR
+    AR.check_mapping_wiring(fx, rep, "C06.api")
     PR.check_combinators(fx, rep, "C06.2")
     PR.is_newline_set(fx, rep, "C06.2")
     PR.check_dispatch(fx, rep, "C06.2")
